@@ -170,7 +170,9 @@ Record sentry := {
   e_user : user;        (* policy attribute User (absent = "") *)
   e_valid : list cmd;   (* policy attribute ValidCommands (claim sessions: MintClaimOptions.ValidCommands,
                            session_info); absent for sessions storeSession creates *)
-  e_auth_real : bool    (* GHOST: the session was established by a real authentication *)
+  e_client : bool;      (* policy attribute CedarClientSideSession: the record the CLIENT half of a handshake
+                           stored (this process negotiated the session with another server) *)
+  e_auth_real : bool    (* GHOST: the session was established by a real authentication OF THE PEER BY US *)
 }.
 
 Definition cache := list (sid * sentry).
@@ -180,6 +182,17 @@ Fixpoint cache_lookup (k : cache) (s : sid) : option sentry :=
   | (i, e) :: r => if N.eqb i s then Some e else cache_lookup r s
   end.
 Definition cache_store (k : cache) (s : sid) (e : sentry) : cache := (s, e) :: k.
+(* storeClientSession: marks the record as client-side; it does not replace the
+   server-side record of the same session when the cache already holds one *)
+Definition mark_client (e : sentry) : sentry :=
+  {| e_key := e_key e; e_authn := e_authn e; e_user := e_user e; e_valid := e_valid e;
+     e_client := true; e_auth_real := e_auth_real e |}.
+Definition client_store (k : cache) (s : sid) (e : sentry) : cache :=
+  match cache_lookup k s with
+  | Some e0 => if e_client e0 then cache_store k s (mark_client e) else k
+  | None => cache_store k s (mark_client e)
+  end.
+
 Fixpoint cache_drop (k : cache) (s : sid) : cache :=
   match k with
   | [] => []
@@ -202,7 +215,7 @@ Record full := {
 (* storeSession *)
 Definition entry_of_full (r : full) : sentry :=
   {| e_key := if f_haskey r then KAes else KNone;
-     e_authn := f_authn r; e_user := f_user r; e_valid := []; e_auth_real := f_auth_real r |}.
+     e_authn := f_authn r; e_user := f_user r; e_valid := []; e_client := false; e_auth_real := f_auth_real r |}.
 
 Definition cstate_of_full (r : full) : cstate :=
   {| cs_neg := {| n_cmd := f_cmd r; n_authn := f_authn r; n_enc := f_enc r; n_user := f_user r;
@@ -213,7 +226,8 @@ Definition cstate_of_full (r : full) : cstate :=
 Definition usable_key (k : keykind) : bool := match k with KAes => true | _ => false end.
 
 (* handleSessionResumption after the lookup succeeded: an entry without a
-   usable key is treated exactly like an unknown session (error, None).
+   usable key, and the client-side record of a session this process negotiated
+   with another server, are treated exactly like an unknown session (error, None).
    Otherwise Authenticated and User come from the stored policy, the key
    restores Encryption and is installed on the stream. checkResumedSession then
    sets Encryption from the stream's real state (true: the key was just
@@ -221,7 +235,7 @@ Definition usable_key (k : keykind) : bool := match k with KAes => true | _ => f
    requirement of the default config against it — which therefore always holds;
    the authentication requirement is left to the per-command dispatch check. *)
 Definition resume (e : sentry) (s : sid) (c : cmd) : option cstate :=
-  if usable_key (e_key e) then
+  if negb (e_client e) && usable_key (e_key e) then
     Some {| cs_neg := {| n_cmd := c; n_authn := e_authn e; n_enc := true; n_user := e_user e;
                          n_resumed := true; n_sid := s; n_valid := e_valid e |};
             cs_auth_real := e_auth_real e; cs_enc_real := true |}
@@ -375,7 +389,11 @@ Definition serve_conn (k : cache) (cn : conn) : cache * (list dispatch * cend) :
 Inductive event :=
 | EConn (cn : conn)
 | EDrop (s : sid)                   (* session expired or invalidated *)
-| EImport (s : sid) (e : sentry).   (* session installed by the application (ImportClaimSession, Store) *)
+| EImport (s : sid) (e : sentry)    (* session installed by the application (ImportClaimSession, Store) *)
+| EClientRecord (s : sid) (e : sentry).
+                                    (* this process, as a CLIENT of some other server, finished a handshake and
+                                       storeClientSession filed its record in the cache the server side shares;
+                                       the record's content (what that server told us) is arbitrary *)
 
 Fixpoint run_history (k : cache) (evs : list event) : list (list dispatch * cend) :=
   match evs with
@@ -383,6 +401,7 @@ Fixpoint run_history (k : cache) (evs : list event) : list (list dispatch * cend
   | EConn cn :: r => let '(k', out) := serve_conn k cn in out :: run_history k' r
   | EDrop s :: r => run_history (cache_drop k s) r
   | EImport s e :: r => run_history (cache_store k s e) r
+  | EClientRecord s e :: r => run_history (client_store k s e) r
   end.
 
 Definition history_dispatches (k : cache) (evs : list event) : list dispatch :=
